@@ -375,6 +375,9 @@ def run(chk):
         extra=[("VERSRE.fullmatch($V) is None", False), ("$R.fullmatch($M)", True)])
     rej("C01.rej.method", pm, [("$R.fullmatch($M)", False, "method not a token")], ALL, "method is not a token")
     rej("C01.rej.version", pm, [("$R.fullmatch(version) is None", True, "version does not match")], ALL, "bad HTTP version", extra=[("$R.fullmatch($M)", True)])
+    # only HTTP/1.x is spoken: another major version is neither parsed as 1.x nor echoed in the status line (llhttp refuses it too)
+    rej("C01.rej.major", pm, [([("version_o.major != 1", True), ("version_o.major == 1", False)], True, "major version is not 1")], ALL, "HTTP major version other than 1",
+        extra=[("$R.fullmatch($M)", True), ("$R.fullmatch(version) is None", False)])
     rej("C01.rej.authority", pm, [("url.absolute", False, "authority-form without CONNECT")], ALL, "authority-form target without CONNECT",
         extra=[("$R.fullmatch($M)", True), ("$R.fullmatch(version) is None", False), ("$P.startswith('/')", False), ("method == 'CONNECT'", False), ("method == 'OPTIONS'", False), ("path == '*'", False)])
     rej("C01.rej.host", pm, [("version_o == HttpVersion11", True, "HTTP/1.1"), ("hdrs.HOST in $H", False, "no Host")], ALL, "missing Host in HTTP/1.1",
@@ -565,6 +568,31 @@ def run(chk):
     else:
         chk.violation("C01.rej.host", pm, "Host header", "try: URL.build(authority=host) except ValueError: raise BadHttpMessage",
                       "an invalid Host value (`a:b`, `a:99999999`, `[::1]x`) passes the parser and only fails as ValueError when request.url is first touched: the client gets 500 (or a middleware crashes) instead of the 400 RFC 9112 3.2 requires")
+    # the Host value is `uri-host [":" port]`: whatever pattern gates it must refuse userinfo, path, query, fragment and blanks (a value like
+    # `internal@public.example` or `evil.example/?x=` otherwise makes request.url name another authority than the header)
+    hre = None
+    for r, cname in K.raises_in(pm.node):
+        if cname not in errs:
+            continue
+        b = PC.has_lit(PC.pc(r, raw=True), [("$R.fullmatch(host)", False), ("$R.fullmatch(host) is None", True), ("not $R.fullmatch(host)", True)], True)
+        if b is not None:
+            hre = (r, b["R"])
+    if hre is None:
+        chk.violation("C01.rej.hostsyntax", pm, "Host header", "if not <uri-host[:port] pattern>.fullmatch(host): raise BadHttpMessage",
+                      "the Host value is only checked by what makes yarl raise: `internal.example@public.example`, `evil.example/?x=`, `a b`, `[::1`, `:80` reach the handler with 200, and request.url then names a different authority than the header (RFC 9112 3.2 requires 400)")
+    else:
+        try:
+            rx = folder.eval(mod, hre[1])
+            import re as _re
+            cre = _re.compile(rx.pattern, rx.flags)
+            bad = [w for w in ("a@b", "evil.example/?x=", "a/b", "a b", "a?x", "a#x", "[::1", ":80", "", "a\\b") if cre.fullmatch(w)]
+            good = [w for w in ("example.com", "example.com:8080", "[::1]", "[::1]:80", "127.0.0.1:80", "xn--caf-dma.example", "a_b.example") if not cre.fullmatch(w)]
+            if bad or good:
+                chk.violation("C01.rej.hostsyntax", hre[0], "Host pattern", f"refuse {bad!r}; accept {good!r}", "the Host gate does not describe `uri-host [\":\" port]`")
+            else:
+                chk.ok("C01.rej.hostsyntax", hre[0], "the Host value is gated by a pattern that admits host[:port] forms and refuses userinfo, path, query, fragment, blanks and unbalanced brackets")
+        except (NotConst, AttributeError) as e:
+            chk.analysis_error(f"C01.rej.hostsyntax: cannot fold the Host pattern: {e}")
     # ------------------------------------------------------------------ C01.reqbody
     reqbody(chk, repo)
     # ------------------------------------------------------------------ C01.err400
